@@ -65,12 +65,12 @@ fn tx_with(cons: &Consensus, inputs: &[(OutPoint, u64)], outs: &[OutSpec], salt:
     b.build()
 }
 
-struct Universe {
-    a: Vec<BlockView>,
-    b: Vec<BlockView>,
+pub struct Universe {
+    pub a: Vec<BlockView>,
+    pub b: Vec<BlockView>,
 }
 
-fn build(forge: &mut Forge, cons: &Consensus) -> Result<Universe, String> {
+pub fn build(forge: &mut Forge, cons: &Consensus) -> Result<Universe, String> {
     let g = genesis_cells(cons);
     // branch A
     let x1 = tx_with(cons, &g[0..1], &[(b"ab", None, b"d1", 0), (b"abc", Some(b"ab"), b"hello", 1_000), (b"abd", None, b"", 2_000), (b"", Some(b"abc"), b"d", 3_000)], 1);
